@@ -91,8 +91,19 @@ def prepare_unit(prop, unit):
     # non-test accessor files overlaid into other packages
     for xpkg, files in unit.get("exports", {}).items():
         for f in files:
+            # "dst.go=src/path.go" overlays under another base name (used to
+            # turn a *_test.go engine file into a non-test file of xpkg);
+            # "common" renders the harness runtime as a non-test file.
+            if f == "common":
+                cdst = os.path.join(gen, "zz_verif_common_" + os.path.basename(xpkg) + ".go")
+                render_common(os.path.basename(xpkg), cdst)
+                replace[os.path.join(modroot, xpkg, "zz_verif_common.go")] = cdst
+                continue
+            dst = os.path.basename(f)
+            if "=" in f:
+                dst, f = f.split("=", 1)
             src = os.path.join(VERIF, "harness", f)
-            replace[os.path.join(modroot, xpkg, "zz_verif_" + os.path.basename(f))] = src
+            replace[os.path.join(modroot, xpkg, "zz_verif_" + dst)] = src
     overlay = os.path.join(gen, "overlay.json")
     with open(overlay, "w") as f:
         json.dump({"Replace": replace}, f, indent=1)
